@@ -750,6 +750,7 @@ func makeCachingWriteBody(rr *requestRange) BodyWriter {
 			return nil
 		}
 
+		verifPointS("srv.before-sendbody", "")
 		fd, err := crw.WrittenFile()
 		if err != nil {
 			if errCleanup != nil {
@@ -769,7 +770,6 @@ func makeCachingWriteBody(rr *requestRange) BodyWriter {
 			return err
 		}
 
-		verifPointS("srv.before-sendbody", "")
 		_, err = sendBody(crw.GetClientWriter(), fd, fi.Size(), rr, logctx)
 		if err != nil {
 			return err
